@@ -53,7 +53,8 @@ def run(ctx):
     # nesting patterns around the recursion limit (Depth.tla), instantiated at the measured limit
     from . import c05
     r = ctx.tlc("Depth", c05.CFG % ("additive", "INVARIANT Bounded\nINVARIANT Emit"), tag="depth-additive", workers=4)
-    pats = [p for i, p in enumerate(r.json) if len(p["layers"]) < 2 or not ctx.quick or i % 3 == ctx.seed % 3]
+    # (a third of the two-layer patterns in both tiers: the texts are large, and C05 runs every pattern on a small stack)
+    pats = [p for i, p in enumerate(r.json) if len(p["layers"]) < 2 or i % 3 == ctx.seed % 3]
     pp = ctx.path("patterns.ndjson")
     core.write_ndjson(pp, pats)
     dp = ctx.path("depth-texts.ndjson")
